@@ -1363,7 +1363,13 @@ impl<F: VfsFile> BPlusTree<F> {
 	pub fn with_file(file: F, compare: Arc<dyn Comparator>) -> Result<Self> {
 		let storage_size = file.size()?;
 
-		let (header, cache) = if storage_size == 0 {
+		// A tree has at least its header page and its root page. A shorter file is
+		// one whose initialisation below was cut short by a crash (the header is
+		// written first, the root after it): nothing was ever stored in it, so it
+		// is initialised again rather than failing every later open.
+		let is_new = storage_size < 2 * PAGE_SIZE as u64;
+
+		let (header, cache) = if is_new {
 			// Initialize a new B+Tree
 			let root_offset = PAGE_SIZE as u64;
 
@@ -1409,7 +1415,7 @@ impl<F: VfsFile> BPlusTree<F> {
 		};
 
 		// Initialize storage if it's a new tree
-		if storage_size == 0 {
+		if is_new {
 			let header_bytes = tree.header.serialize();
 			let mut buffer = vec![0u8; PAGE_SIZE];
 			buffer[..header_bytes.len()].copy_from_slice(&header_bytes);
